@@ -64,7 +64,8 @@ def build_cases(ctx, stream: str, n: int) -> list[dict]:
     for i in range(n):
         r = rng(f"C03:{stream}:{i}")
         if stream == "mainstream":
-            o = gs.Opts(mainstream=True, max_ops=1, formats=("date-time", "date", "byte"), self_ref=False, unions=False, hostile_prop_names=False)
+            o = gs.Opts(mainstream=True, max_ops=1, formats=("date-time", "date", "byte"), self_ref=False, unions=False, hostile_prop_names=False,
+                        colliding_props=(i % 3 == 0), allof_variants=(i % 4 == 0))
         else:
             o = gs.Opts(mainstream=True, max_ops=1, formats=("date-time", "date", "byte", "uuid", "time"), self_ref=True, unions=True)
         doc = gs.gen_spec(r, o)
@@ -79,6 +80,7 @@ def build_cases(ctx, stream: str, n: int) -> list[dict]:
                               "features": sorted(fmt_features(doc, sch) | ({"self-ref"} if self_ref(doc, name) else set())
                                                  | ({"doc-self-ref"} if any(self_ref(doc, n) for n in doc["components"]["schemas"]) else set())
                                                  | {"doc-" + x for n2, s2 in doc["components"]["schemas"].items() for x in fmt_features(doc, s2) if x in ("format:uuid", "format:time", "union")})})
+        r.shuffle(items)    # hook registration is per process and order dependent: a container may be decoded before its parts
         cases.append({"id": f"{stream}-{i}", "stream": stream, "doc": doc, "items": items})
     return cases
 
@@ -94,7 +96,7 @@ def attribute(item: dict, msg: str) -> str | None:
         return "F10"
     if "union" in f or ("doc-union" in f and "Union" in msg):
         return "F24"
-    if "Cannot structure" in msg and ({"doc-self-ref", "doc-format:uuid", "doc-format:time"} & f):
+    if ("Cannot structure" in msg or "Could not structure" in msg) and ({"doc-self-ref", "doc-format:uuid", "doc-format:time"} & f):
         return "F42" if "doc-self-ref" in f else "F10"
     return None
 
